@@ -652,6 +652,8 @@ std::string ErrorMessage::toString(bool verbose, const std::string &templateForm
     std::string::size_type pos1 = result.find("{inconclusive:");
     while (pos1 != std::string::npos) {
         const std::string::size_type pos2 = result.find('}', pos1+1);
+        if (pos2 == std::string::npos)
+            break;
         const std::string replaceFrom = result.substr(pos1,pos2-pos1+1);
         const std::string replaceWith = (certainty == Certainty::inconclusive) ? result.substr(pos1+14, pos2-pos1-14) : std::string();
         findAndReplace(result, replaceFrom, replaceWith);
